@@ -58,7 +58,7 @@ def parse_type(s: str):
             return ('seq', args[0])
         if head == 'str':
             return ('name',)
-        if head in ('int', 'bool', 'name', 'none', 'block', 'cls', 'inst'):
+        if head in ('int', 'bool', 'name', 'none', 'block', 'cls', 'inst', 'sub'):
             return (head,)
         if head in ('set', 'opt'):
             return (head, args[0])
@@ -89,7 +89,9 @@ def sort_of(ty):
     if ty in _sorts:
         return _sorts[ty]
     k = ty[0]
-    if k == 'int' or k == 'cls':
+    if k == 'int' or k == 'cls' or k == 'sub':
+        # 'sub': the opaque identity of a region's sub-graph object (value mode, DESIGN 2.2); its `graph` is an
+        # uninterpreted function of the identity
         s = IntSort()
     elif k == 'bool':
         s = BoolSort()
@@ -138,6 +140,17 @@ T_INT, T_BOOL, T_NAME, T_NONE, T_BLOCK, T_CLS = ('int',), ('bool',), ('name',), 
 T_SEQN = ('seq', T_NAME)
 T_SETN = ('set', T_NAME)
 T_INST = ('inst',)
+T_SUB = ('sub',)
+sub_graph_f = None
+
+
+def sub_graph(v):
+    """the block dictionary of a region's sub-graph, as a function of the sub-graph's identity"""
+    global sub_graph_f
+    ty = ('dict', T_NAME, T_BLOCK)
+    if sub_graph_f is None:
+        sub_graph_f = Function('sub_graph', IntSort(), sort_of(ty))
+    return V(ty, sub_graph_f(v.t))
 
 BLOCK_FIELDS = [
     ('cls', T_CLS), ('name', T_NAME), ('_jump_targets', T_SEQN), ('backedges', T_SEQN),
@@ -145,7 +158,7 @@ BLOCK_FIELDS = [
     ('variable', T_NAME), ('branch_value_table', ('dict', T_INT, T_NAME)),
     ('variable_assignment', ('dict', T_NAME, T_INT)),
     ('kind', T_NAME), ('header', T_NAME), ('exiting', T_NAME),
-    ('subregion', T_INT), ('parent_region', T_INT), ('tree', T_INT),
+    ('subregion', ('sub',)), ('parent_region', T_INT), ('tree', T_INT),
 ]
 _block_sort = None
 
@@ -297,7 +310,28 @@ def default_term(ty):
     return FreshConst(sort_of(ty), 'dflt') if ty[0] not in ('int', 'bool') else (IntVal(0) if ty[0] == 'int' else BoolVal(False))
 
 
+def literal_elements(v):
+    """elements of a sequence built by seq_from_list (constructor over a Store chain with a literal length), else None"""
+    arr, n = _ctor_arg(v.t, 0), _ctor_arg(v.t, 1)
+    if arr is None or n is None or not z3.is_int_value(n):
+        return None
+    n = n.as_long()
+    elems = {}
+    while z3.is_app_of(arr, z3.Z3_OP_STORE):
+        a, i, e = arr.arg(0), arr.arg(1), arr.arg(2)
+        if not z3.is_int_value(i):
+            return None
+        elems.setdefault(i.as_long(), e)
+        arr = a
+    if not all(i in elems for i in range(n)):
+        return None
+    return [elems[i] for i in range(n)]
+
+
 def seq_mem(v, x):
+    lit = literal_elements(v)
+    if lit is not None and len(lit) <= 8:
+        return Or(*[e == x for e in lit]) if lit else BoolVal(False)
     k = z3.FreshInt('km')
     return Exists([k], And(0 <= k, k < seq_n(v), Select(seq_arr(v), k) == x))
 
